@@ -2,6 +2,7 @@ package main
 
 import (
 	"fmt"
+	"go/token"
 	"sort"
 	"strings"
 
@@ -457,6 +458,41 @@ func ruleC19_4(c *Ctx) {
 			}
 		}
 		c.check(okNil, R, fname(g), "no PEM block => ErrNoPEMBlock before the block is touched", g.Pos(), "nil test of pem.Decode's block dominates data.Bytes and fails", "a missing PEM block is dereferenced or accepted")
+		// the decoded bytes go to the try-all-encodings parser whatever the block's label says: the library itself
+		// stores private halves under fixed labels (setKeyComponents: ecdsa -> "PRIVATE KEY", rsa -> "RSA PRIVATE KEY")
+		// with the DER bytes as they were loaded (PKCS#1, PKCS#8 or SEC1), so a parser chosen by label refuses keys the
+		// library has loaded itself
+		for _, r := range c.nilErrReturns(g) {
+			if len(r.Results) < 2 {
+				continue
+			}
+			pc, idx := producer(r.Results[1], r)
+			okParse := pc != nil && idx == 0 && pc.Common().StaticCallee() == f && dec != nil &&
+				org(pc.Common().Args[0]) == org(resultN(dec, 0))+".Bytes"
+			what := "-"
+			if pc != nil {
+				what = calleeName(pc) + "(" + short(org(pc.Common().Args[0])) + ")"
+			}
+			c.check(okParse, R, fname(g), "the key object is "+fname(f)+"(block.Bytes)", instrPos(r), "all five encodings are tried on the decoded bytes, independent of the PEM label", "the key object comes from "+what+", not from the try-all-encodings parser applied to the block's bytes: key material the library stored itself (original DER under a fixed label) may be refused")
+		}
+		readsType := false
+		for _, fn2 := range c.srcFuncs("in_toto") {
+			for _, b := range fn2.Blocks {
+				for _, in := range b.Instrs {
+					if fa, ok := in.(*ssa.FieldAddr); ok && typeStr(fa.X.Type()) == "*encoding/pem.Block" && fieldName(fa.X.Type(), fa.Field) == "Type" {
+						for _, rr := range *fa.Referrers() {
+							if ld, isLd := rr.(*ssa.UnOp); isLd && ld.Op == token.MUL {
+								readsType = true
+								c.bad(R, fname(fn2), "PEM label is read", ld.Pos(), "the PEM block's Type decides something here, but the labels the library writes do not identify the encoding of the bytes below them")
+							}
+						}
+					}
+				}
+			}
+		}
+		if !readsType {
+			c.ok(R, "in_toto", "PEM labels are never read", 0, "no load of pem.Block.Type in package in_toto")
+		}
 	}
 }
 
